@@ -1228,11 +1228,15 @@ def tp_rule_mix(c, rules=(("GLL", 3),), degree=2, bilinear=False):
 
 # ============================================================================ C13 near-miss builders
 @builder
-def nearmiss(c, literal=1.5, index=0, which_coef=0, degree=1, power=2, swap_creation=False, kind="form"):
+def nearmiss(c, literal=1.5, index=0, which_coef=0, degree=1, power=2, swap_creation=False, kind="form", family="Lagrange", variant=None,
+             qdeg=None, scheme=None, itype="cell", sid=None, const_shape=None, const_index=0, conj_side=False, npts=3):
     """A small family of forms/expressions differing in exactly one feature (literal, component index,
     which of two same-space coefficients is used, element degree, integer power).  swap_creation changes only the
     creation order (object counters) of the two coefficients: the request is the same up to renumbering."""
-    V = c.V("Lagrange", degree)
+    kw = {}
+    if variant:
+        kw["lagrange_variant"] = getattr(basix.LagrangeVariant, variant)
+    V = c.V(family, degree, **kw)
     W = c.V("Lagrange", 1, shape=(c.gdim,))
     if swap_creation:
         g = Coefficient(V)
@@ -1244,10 +1248,23 @@ def nearmiss(c, literal=1.5, index=0, which_coef=0, degree=1, power=2, swap_crea
     fs = (f, g)
     a, b_ = fs[which_coef], fs[1 - which_coef]
     e = literal * a ** power * q[index] + sin(b_)
+    if const_shape is not None:
+        kc = Constant(c.mesh, shape=tuple(const_shape))
+        e = e + (kc[tuple(int(i) for i in np.unravel_index(const_index, tuple(const_shape)))] if const_shape else kc)
     if kind == "form":
         v = TestFunction(V)
-        return inner(e, v) * dx
-    return (e * grad(a), _ref_points(c.cell, "interior", 3))
+        md = {}
+        if qdeg is not None:
+            md["quadrature_degree"] = qdeg
+        if scheme:
+            md["quadrature_rule"] = scheme
+        mkw = {"metadata": md} if md else {}
+        if sid is not None:
+            mkw["subdomain_id"] = tuple(sid) if isinstance(sid, list) else sid
+        if itype == "interior_facet":
+            return inner(e("+"), v("-") if conj_side else v("+")) * dS(**mkw)
+        return inner(e, v) * measure(itype, **mkw)
+    return (e * grad(a), _ref_points(c.cell, "interior", npts))
 
 
 @builder
